@@ -72,7 +72,8 @@ class PlotHook:
         pp.display = lambda s: self.captured.append(s)
         ts = hvsrpy.TimeSeries
         x = np.sin(np.arange(40) * 0.7)
-        self.recs = [hvsrpy.SeismicRecording3C(ts(x * (w + 1), 0.01), ts(x[::-1] * (w + 1), 0.01), ts(x * 0.5, 0.01)) for w in range(3)]
+        # (the recordings are deployed at non-zero angles: a plot must not re-orient what it is given)
+        self.recs = [hvsrpy.SeismicRecording3C(ts(x * (w + 1), 0.01), ts(x[::-1] * (w + 1), 0.01), ts(x * 0.5, 0.01), degrees_from_north=(30.0, 215.0, 0.0)[w]) for w in range(3)]
 
     def fail(self, key, msg, sline, cv, inst):
         self.run.violation(f"plot:{key}:{'azimuthal' if self.na > 1 else 'traditional'}",
